@@ -57,6 +57,14 @@ type fcallRequest struct {
 	err      chan error
 }
 
+// pendingWrite is a tagged request on its way to the connection, and, if
+// writing it failed, the reason.
+type pendingWrite struct {
+	req   *fcallRequest
+	fcall *Fcall
+	err   error
+}
+
 func newFcallRequest(ctx context.Context, msg Message) *fcallRequest {
 	return &fcallRequest{
 		ctx:      ctx,
@@ -137,7 +145,36 @@ func (t *transport) handle() {
 		// outstanding provides a map of tags to outstanding requests.
 		outstanding = map[Tag]*fcallRequest{}
 		selected    Tag
+
+		// Requests are put on the wire by a goroutine of their own, so that
+		// this loop keeps taking replies while a write is blocked. A peer under
+		// back pressure stops reading requests until its replies are taken; if
+		// replies were not taken during a write, the two ends would wait for
+		// each other for ever once a few calls are in flight.
+		queue   []*pendingWrite // tagged requests waiting for the writer
+		towrite = make(chan *pendingWrite)
+		failed  = make(chan *pendingWrite)
 	)
+
+	// loop to write messages to the connection, one at a time, in order
+	go func() {
+		for {
+			select {
+			case w := <-towrite:
+				w.err = t.ch.WriteFcall(w.req.ctx, w.fcall)
+				if w.err == nil {
+					continue
+				}
+				select {
+				case failed <- w:
+				case <-t.closed:
+					return
+				}
+			case <-t.closed:
+				return
+			}
+		}
+	}()
 
 	// loop to read messages off of the connection
 	go func() {
@@ -174,6 +211,15 @@ func (t *transport) handle() {
 	}()
 
 	for {
+		// offer the oldest waiting request to the writer, if there is one
+		var (
+			next *pendingWrite
+			out  chan *pendingWrite
+		)
+		if len(queue) > 0 {
+			next, out = queue[0], towrite
+		}
+
 		select {
 		case req := <-t.requests:
 			var err error
@@ -185,16 +231,18 @@ func (t *transport) handle() {
 			}
 
 			outstanding[selected] = req
-			fcall := newFcall(selected, req.message)
-
+			queue = append(queue, &pendingWrite{req: req, fcall: newFcall(selected, req.message)})
+		case out <- next:
+			queue = queue[1:]
+		case w := <-failed:
 			// TODO(stevvooe): Consider the case of requests that never
 			// receive a response. We need to remove the fcall context from
 			// the tag map and dealloc the tag. We may also want to send a
 			// flush for the tag.
-			if err := t.ch.WriteFcall(req.ctx, fcall); err != nil {
-				delete(outstanding, fcall.Tag)
-				req.err <- err
+			if outstanding[w.fcall.Tag] == w.req {
+				delete(outstanding, w.fcall.Tag)
 			}
+			w.req.err <- w.err
 		case b := <-responses:
 			req, ok := outstanding[b.Tag]
 			if !ok {
